@@ -188,6 +188,33 @@ pub fn sr_rr_spaces(tier: Tier, seed: u64) -> Vec<CfgSpace> {
         }
     }));
 
+    // (2c') a report block about the packet's own source, alone, first, in the middle and last, among blocks about
+    // other sources; and blocks whose loss count exceeds / equals / is below their extended sequence number
+    v.push(CfgSpace::new("sr-rr-block-about-own-ssrc-and-loss-vs-sequence", 2 * 6 * 5, move |idx| {
+        let own = 0x0909_0909u32;
+        let shape = (idx / 2) % 6;
+        let rel = idx / 12;
+        let mut mine = sentinel_rb(5, salt);
+        mine.ssrc = own;
+        let (seq, cum) = [(0x1234u32, 0x02_0000u32), (0x1234, 0x1235), (0x1234, 0x1234), (1, 0x00FF_FFFF), (0xFFFF_FFFF, 0)][rel as usize];
+        mine.ext_seq = seq;
+        mine.cum = cum;
+        let (o1, o2) = (sentinel_rb(1, salt ^ 0x11), sentinel_rb(2, salt ^ 0x22));
+        let blocks = match shape {
+            0 => vec![mine],
+            1 => vec![mine, o1],
+            2 => vec![o1, mine, o2],
+            3 => vec![o1, o2, mine],
+            4 => vec![mine.clone(), mine],
+            _ => vec![o1, mine.clone(), mine],
+        };
+        if idx % 2 == 0 {
+            Pkt::Sr { ssrc: own, ntp: 8, rtp: 7, pc: 6, oc: 5, blocks, pad: 0 }
+        } else {
+            Pkt::Rr { ssrc: own, blocks, pad: 0 }
+        }
+    }));
+
     // (2d) relations between fields: every field of the packet (and of every block) carrying the SAME walk value -
     // sender SSRC = timestamps = counts = every block field - so that equal neighbours occur, not only distinct ones
     let w32e = w32.clone();
@@ -277,6 +304,36 @@ fn fill_items(bytes: usize, salt: u64) -> Vec<Item> {
 pub fn sdes_spaces(tier: Tier, seed: u64) -> Vec<CfgSpace> {
     let mut v = vec![wide_count_space(3)];
     let s = seed;
+
+    // total sizes around the carries of the 16-bit length field (in words: 0x00FF -> 0x0100 at 1024 bytes, then
+    // 2048, 4096): one chunk whose items fill the packet to exactly T - 4, T, T + 4 bytes, with one or several fill
+    // bytes, without and with padding
+    v.push(CfgSpace::new("sdes-sizes-around-length-field-carries", 4 * 3 * 2 * 2, move |idx| {
+        let t = ([1024i64, 2048, 4096, 768][(idx % 4) as usize] + [-4i64, 0, 4][((idx / 4) % 3) as usize]) as usize;
+        let pad = if (idx / 12) % 2 == 0 { 0u8 } else { 8 };
+        let many_nulls = idx / 24 == 1;
+        // 4 (header) + 4 (SSRC) + roundup4(items + 1) + padding = t
+        let items_bytes = t - pad as usize - if many_nulls { 12 } else { 9 };
+        Pkt::Sdes { chunks: vec![Chunk { ssrc: 0x0A0B_0C0D, items: fill_items(items_bytes, idx) }], pad }
+    }));
+
+    // values and PRIV prefixes a normalising writer or reader is tempted to touch (see ODD_TEXTS), as a CNAME, an
+    // item of an unassigned type, a PRIV value and a PRIV prefix, alone and followed by another item
+    v.push(CfgSpace::new("sdes-odd-values", ODD_TEXTS.len() as u64 * 4 * 2 * 2, move |idx| {
+        let n = ODD_TEXTS.len() as u64;
+        let t = ODD_TEXTS[(idx % n) as usize].as_bytes();
+        let item = match (idx / n) % 4 {
+            0 => Item::new(1, t),
+            1 => Item::new(77, t),
+            2 => Item::priv_(b"pf", t),
+            _ => Item::priv_(t, b"val"),
+        };
+        let mut items = vec![item];
+        if (idx / n / 4) % 2 == 1 {
+            items.push(Item::new(2, b"next"));
+        }
+        Pkt::Sdes { chunks: vec![Chunk { ssrc: 0x0506_0708, items }], pad: if idx / n / 8 == 0 { 0 } else { 4 } }
+    }));
 
     // item values of multi-byte characters around and above the 255-BYTE limit whose CHARACTER count stays at or
     // below 255 (the limit is on bytes: above it the builder must refuse, at or below it the value must come back
@@ -479,6 +536,12 @@ pub fn bye_spaces(_tier: Tier, seed: u64) -> Vec<CfgSpace> {
         Pkt::Bye { ssrcs: (0..n as u32).map(|i| 0x0A00_0000 + i).collect(), reason, pad: if idx / LONG_REASONS / 3 == 0 { 0 } else { 8 } }
     }),
     bye_pattern_space(),
+    // reasons a normalising writer or reader is tempted to touch (see ODD_TEXTS) x source counts x two paddings
+    CfgSpace::new("bye-odd-reasons", ODD_TEXTS.len() as u64 * 3 * 2, move |idx| {
+        let n = ODD_TEXTS.len() as u64;
+        let k = [0usize, 1, 3][((idx / n) % 3) as usize];
+        Pkt::Bye { ssrcs: (0..k as u32).map(|i| 0x0B00_0000 + i).collect(), reason: ODD_TEXTS[(idx % n) as usize].to_string(), pad: if idx / n / 3 == 0 { 0 } else { 4 } }
+    }),
     wide_count_space(2)]
 }
 
@@ -508,6 +571,11 @@ pub fn sdes_pattern_space() -> CfgSpace {
     })
 }
 
+/// Legal texts a normalising implementation is tempted to touch: trailing / leading / only NULs, trailing and leading
+/// white space, line ends, a byte order mark, a text that looks like a number or is a single space.
+pub const ODD_TEXTS: [&str; 22] = [
+    "abc\0", "\0", "\0\0", "\0\0\0", "a\0b", "\0abc", "abc\0\0", "abcdefg\0", "ab\0", " ", "  ", "bye ", " bye", "Shutting down\n", "line\r\n", "\ttab", "\u{FEFF}abc", "\u{FEFF}", "abc\u{FEFF}", "0", "\u{7f}", "a\u{0301}",
+];
 pub const LONG_REASONS: u64 = 14;
 /// multi-byte texts of 252..=1020 bytes with at most 255 characters
 pub fn long_multibyte_text(k: usize) -> String {
@@ -549,7 +617,7 @@ pub fn app_spaces(tier: Tier, _seed: u64) -> Vec<CfgSpace> {
     let pads = pad_all();
     let r = Radix::new(&[ssrcs.len() as u64, 32, APP_NAMES.len() as u64, pl.len() as u64, 64]);
     let rl = r.len();
-    let big: Vec<usize> = vec![252, 256, 260, 1020, 1024, 1028, 65_528, 65_532, 65_536, 65_540, 262_120, 262_128, 262_132];
+    let big: Vec<usize> = vec![252, 256, 260, 1008, 1012, 1016, 1020, 1024, 1028, 2032, 2036, 2040, 4084, 65_524, 65_528, 65_532, 65_536, 65_540, 262_120, 262_128, 262_132];
     let nb = big.len() as u64;
     vec![
         CfgSpace::new("app-fields", rl, move |idx| {
@@ -761,6 +829,28 @@ pub fn sli_spaces(_tier: Tier, _seed: u64) -> Vec<CfgSpace> {
         let e = (a[(i % n13) as usize], a[((i / n13) % n13) as usize], b[((i / n13 / n13) % n6) as usize]);
         fb_wrap(Kind::Payload, Fci::Sli(vec![e]), (idx % 2) * 24)
     }));
+    // relations between neighbouring entries: the second starts where the first ends (or one before / after), with
+    // the same or another picture id, each number zero or not, in both orders, alone and between two others
+    v.push(CfgSpace::new("sli-neighbouring-runs", 3 * 2 * 2 * 2 * 2 * 3, |idx| {
+        let d = [-1i32, 0, 1][(idx % 3) as usize];
+        let same_pic = (idx / 3) % 2 == 0;
+        let n1 = [5u16, 0][((idx / 6) % 2) as usize];
+        let n2 = [7u16, 0][((idx / 12) % 2) as usize];
+        let swap = (idx / 24) % 2 == 1;
+        let ctx = idx / 48;
+        let e1 = (100u16, n1, 9u8);
+        let e2 = ((100 + n1 as i32 + d) as u16, n2, if same_pic { 9 } else { 10 });
+        let mut v = if swap { vec![e2, e1] } else { vec![e1, e2] };
+        match ctx {
+            1 => {
+                v.insert(0, (1, 1, 1));
+                v.push((4000, 3, 2));
+            }
+            2 => v.push((100 + n1 + n2, 2, 9)),
+            _ => {}
+        }
+        fb_wrap(Kind::Payload, Fci::Sli(v), 0)
+    }));
     let alphabet: Vec<(u16, u16, u8)> = vec![(0, 0, 0), (0x1FFF, 0x1FFF, 0x3F), (1, 0, 0), (0, 1, 0), (0, 0, 1), (0x1000, 0x0FFF, 0x20), (0x0AAA, 0x1555, 0x2A), (0x1234, 0x0987, 0x25)];
     let na = alphabet.len() as u64;
     let n = seq_count(na, 3);
@@ -830,7 +920,7 @@ pub fn pli_spaces(_tier: Tier, _seed: u64) -> Vec<CfgSpace> {
 pub fn fb_large_spaces() -> Vec<CfgSpace> {
     let mut v = Vec::new();
     let mut sli_n = many_counts();
-    sli_n.extend_from_slice(&[16_383, 16_384, 65_532, 65_533]);
+    sli_n.extend_from_slice(&[252, 253, 254, 508, 509, 510, 1021, 16_381, 16_383, 16_384, 65_532, 65_533]);
     let n = sli_n.len() as u64;
     v.push(CfgSpace::new("sli-long-lists", n * 2, move |idx| {
         let k = sli_n[(idx % n) as usize];
@@ -842,7 +932,7 @@ pub fn fb_large_spaces() -> Vec<CfgSpace> {
         Pkt::Fb { kind: Kind::Payload, sender: 0x5E4D_3C2B, media: 0x1A2B_3C4D, fci: Fci::Sli(e), pad }
     }));
     let mut fir_n = many_counts();
-    fir_n.extend_from_slice(&[8_191, 8_192, 32_765, 32_766]);
+    fir_n.extend_from_slice(&[126, 127, 128, 254, 255, 256, 510, 8_190, 8_191, 8_192, 32_765, 32_766]);
     let n = fir_n.len() as u64;
     v.push(CfgSpace::new("fir-large-maps", n * 2, move |idx| {
         let k = fir_n[(idx % n) as usize];
@@ -856,7 +946,9 @@ pub fn fb_large_spaces() -> Vec<CfgSpace> {
     }));
     let mut rl: Vec<usize> = (41..=48).collect();
     rl.extend(253..=260);
+    rl.extend(1003..=1014);
     rl.extend(1019..=1030);
+    rl.extend(2029..=2036);
     rl.extend(65_529..=65_540);
     rl.extend_from_slice(&[262_127, 262_128, 262_129, 262_130]);
     let n = rl.len() as u64;
@@ -867,7 +959,8 @@ pub fn fb_large_spaces() -> Vec<CfgSpace> {
         Pkt::Fb { kind: Kind::Payload, sender: 0x5E4D_3C2B, media: 0x1A2B_3C4D, fci: Fci::Rpsi { pt: 96, data, overrun }, pad: 0 }
     }));
     // NACK lists of many words: k values spaced 17 and 18 apart (one word each), from three bases
-    let nack_n = many_counts();
+    let mut nack_n = many_counts();
+    nack_n.extend_from_slice(&[252, 253, 254, 508, 509, 510]);
     let n = nack_n.len() as u64;
     v.push(CfgSpace::new("nack-many-words", n * 2 * 3, move |idx| {
         let k = nack_n[(idx % n) as usize];
@@ -912,7 +1005,7 @@ pub fn unknown_spaces(tier: Tier, _seed: u64) -> Vec<CfgSpace> {
     let pads = pad_all();
     let r = Radix::new(&[pts.len() as u64, 32, 5, 64]);
     let rl = r.len();
-    let big: Vec<usize> = vec![252, 256, 260, 1020, 1024, 1028, 65_528, 65_532, 65_536, 65_540, 262_128, 262_136, 262_140];
+    let big: Vec<usize> = vec![252, 256, 260, 1016, 1020, 1024, 1028, 2040, 2044, 2048, 4092, 65_528, 65_532, 65_536, 65_540, 262_128, 262_136, 262_140];
     let nb = big.len() as u64;
     vec![
         CfgSpace::new("unknown-type-x-count-x-payload-x-padding", rl, move |idx| {
